@@ -31,6 +31,10 @@ def main():
         i = args.index('--tier'); tier = args[i + 1]; del args[i:i + 2]
     if '--skip-suite' in args:
         args.remove('--skip-suite'); skip_suite = True
+    checks_only = False
+    if '--checks-only' in args:
+        # the change is already confirmed (verify.json exists): only run the listed checks against it and merge the results
+        args.remove('--checks-only'); checks_only = True
     d = os.path.abspath(args[0])
     meta = json.load(open(os.path.join(d, 'meta.json')))
     checks = args[1:] or [meta['property']]
@@ -42,9 +46,15 @@ def main():
     sh(f'git -C /repo worktree prune', '/')
     rc, o = sh(f'git -C /repo worktree add --detach {wt} HEAD', '/')
     res = {'dir': d, 'property': meta['property'], 'steps': {}}
+    if checks_only:
+        res = json.load(open(os.path.join(d, 'verify.json')))
     ok = True
     try:
         assert rc == 0, o
+        if checks_only:
+            rc, o = sh(f'git apply {os.path.join(d, "patch.diff")}', wt)
+            assert rc == 0, o
+            raise StopIteration
         pkgdir = os.path.join(wt, meta['demo_pkg_dir'])
         demo_dst = os.path.join(pkgdir, 'zz_seed_demo_test.go')
         shutil.copy(os.path.join(d, 'demo_test.go'), demo_dst)
@@ -88,8 +98,10 @@ def main():
             if missing:
                 ok = False
         res['confirmed'] = ok
+        raise StopIteration
+    except StopIteration:
         # run checks against the patched worktree
-        res['checks'] = {}
+        res.setdefault('checks', {})
         for c in checks:
             env = dict(ENV); env['VERIF_REPO'] = wt; env['VERIF_OUT'] = out
             t0 = time.time()
@@ -98,7 +110,7 @@ def main():
             except subprocess.TimeoutExpired:
                 rc, o = 124, 'timeout'
             lines = [l for l in o.splitlines() if l.startswith('VIOLATION') or l.startswith('KNOWN-FINDING') or 'ENGINE-ERROR' in l or 'INCONCLUSIVE' in l or l.strip().startswith('harness=')]
-            res['checks'][c] = {'tier': tier, 'exit': rc, 'wall_s': round(time.time() - t0, 1), 'lines': lines[:12], 'tail': o[-1200:] if rc not in (0, 1) else ''}
+            res['checks'][c if (tier == 'quick' and os.environ.get('SEED_STAGE', 'first') == 'first') else c + ':' + tier + ':' + os.environ.get('SEED_STAGE', 'first')] = {'tier': tier, 'stage': os.environ.get('SEED_STAGE', 'first'), 'exit': rc, 'wall_s': round(time.time() - t0, 1), 'lines': lines[:12], 'tail': o[-1200:] if rc not in (0, 1) else ''}
     except SystemExit:
         res['confirmed'] = False
     finally:
